@@ -18,20 +18,20 @@ CLAIMS = {
    note=COMMON_NOTE + "Modelled not verified: Box<[T]> as List, PeriodType as Nat with explicit maximum, debug-profile panics.",
    ref="DESIGN.md §5 C01"),
  "C02": dict(cat="proof", tech="Lean 4 invariant proofs (incremental machine = from-scratch formula) + two-layer differential replay under a rounding allowance",
-   text="For SMA, WMA, Integral, Momentum, Derivative, RateOfChange, Past, StDev (variance under the root), LinearVolatility, MeanAbsDev, CCI: theorems for every length, construction value, stream "
+   text="For every C02 method - SMA, WMA, SWMA, TRIMA, HMA, LinReg, Conv, VWMA, Integral, Derivative, Momentum, RateOfChange, Past, StDev (variance under the root), MeanAbsDev, MedianAbsDev, CCI, LinearVolatility, windowed ADI: theorems for every length, construction value, stream "
         "and position that the model's output equals the documented formula on the last n values (induction over the stream via a "
         "state invariant). All 19 methods: model and from-scratch spec are executed in exact rational arithmetic on every generated "
         "step and must agree exactly; the Rust outputs and serialized accumulators must lie within the allowance of the exact values, "
         "and each single Rust update must reproduce one model step from Rust's own state (L-step).",
-   note=COMMON_NOTE + NUM_NOTE + "PARTIAL: SWMA, TRIMA, HMA, LinReg, Conv, VWMA, StDev, MeanAbsDev, MedianAbsDev, CCI, "
-        "LinearVolatility, windowed ADI have model and spec but no model=spec theorem yet (validated only).",
+   note=COMMON_NOTE + NUM_NOTE + "PARTIAL only with respect to floats: every method has its model=spec theorem (SWMA for length >= 2; "
+        "MedianAbsDev for the total order of the representation).",
    ref="DESIGN.md §5 C02, §3"),
  "C03": dict(cat="proof", tech="Lean 4 proofs of recurrences/constants/compositions + per-step (L-step) differential replay",
    text="Theorems: EMA is the recurrence with alpha=2/(n+1); RMA and WSMA use exactly 1/n; DMA/TMA/DEMA/TEMA are the documented "
-        "compositions; the windowless Integral is the cumulative sum; TR and HeikinAshi step equations. Every Rust update of every "
+        "compositions; TSI is the quotient of doubly smoothed changes / absolute changes with an exact positivity guard; Vidya follows its adaptive recurrence (up/down sums = window sums of the positive/negative parts of the changes); the windowless Integral and ADI are cumulative sums; TR and HeikinAshi step equations. Every Rust update of every "
         "recursive method is checked against one exact model step from Rust's own serialized state, and whole runs against the "
         "exact recurrence under the allowance.",
-   note=COMMON_NOTE + NUM_NOTE + "PARTIAL: TSI, Vidya and cumulative ADI are validated against their from-scratch specs, not proved. "
+   note=COMMON_NOTE + NUM_NOTE + "PARTIAL only with respect to floats: every C03 method has its theorem. "
         "Known finding: Vidya residue amplification (KNOWN_FINDINGS.txt).",
    ref="DESIGN.md §5 C03"),
  "C04": dict(cat="proof", tech="Lean 4 invariant proof over an abstract float order (bit-equality vs numeric order) + exact differential replay",
@@ -40,7 +40,7 @@ CLAIMS = {
         "the bit-equality rescan trigger is sound; HighestIndex / LowestIndex return the age of the NEWEST extremal element (an element "
         "numerically extremal with everything newer strictly worse - unique), on the fast path and in the rescan. All selection methods (incl. delta, arg-extrema, SMM, median in MedianAbsDev) are "
         "compared exactly with the model and with from-scratch selections on tie-rich streams.",
-   note=COMMON_NOTE + "PARTIAL: HighestLowestDelta, SMM validated only. f64::max/min tie behaviour on ±0 "
+   note=COMMON_NOTE + "SMM: the sorted slice is the ascending sort of the window after every stream (binary searches, in-place shift), for the total order of the representation. PARTIAL: HighestLowestDelta validated only. f64::max/min tie behaviour on ±0 "
         "is hardware-defined: outputs compared numerically as the property allows.",
    ref="DESIGN.md §5 C04"),
  "C14": dict(cat="proof", tech="Lean 4 proofs (definitional characterisation, antisymmetry) + exact differential replay",
@@ -165,25 +165,23 @@ CLAIMS = {
    ref="DESIGN.md §5 C15"),
 
  "C05": dict(cat="proof", tech="Lean 4 proofs about hand-written indicator models (composition of realised averages / extremum trackers, invariants lifted over candle lists) + per-step differential replay of every indicator value under the rounding allowance",
-   text="16 of the 36 indicators are modelled (MACD, BollingerBands, Aroon, RSI, Stochastic, Donchian, PriceChannelStrategy, Keltner, Envelopes, "
-        "Ichimoku, CMF, MFI, CMO, TrueStrengthIndex, SMIErgodic, ParabolicSAR) with init/validate and all 15 MA kinds. Theorems (exact arithmetic, "
+   text="34 of the 36 indicators are modelled (all but FisherTransform and TrendStrengthIndex) with init/validate and all 15 MA kinds. Theorems (exact arithmetic, "
         "every stream): MA instances realise their history function for ever (SMA, EMA), MACD = f1 - f2 and signal line = f3 of its history, "
         "Donchian bounds are extremes of the last n highs/lows from init on, RSI and CMO value formulas behind their guards, MFI's expression "
         "equals pmf/(pmf+nmf), SAR returns the post-flip state. Every value the real code returns (every indicator, random valid configurations "
         "via the string setters, 6 candle classes) must lie within the allowance of the exact model's value.",
-   note=COMMON_NOTE + NUM_NOTE + "PARTIAL: 20 indicators (AverageDirectionalIndex and the second tier) have no model and are covered by C08-C11/C13 only; "
-        "for Aroon, Bollinger, Stochastic, Keltner, Envelopes, Ichimoku, CMF, TSI/SMI the whole-history value theorems are not written (model "
-        "validated by the run only). Known finding: configurations using the Vidya average (residue amplification, see C03).",
+   note=COMMON_NOTE + NUM_NOTE + "PARTIAL: FisherTransform (atanh) and TrendStrengthIndex (sqrt of a running variance) have no model; whole-history value theorems exist "
+        "for MACD, Donchian, Aroon, Bollinger, RSI, CMO, SAR; the other 27 models are validated by the run only. Known finding: configurations using the Vidya average (residue amplification, see C03).",
    ref="DESIGN.md §5 C05"),
  "C06": dict(cat="proof", tech="Lean 4 proofs of the signal rules of the indicator models (crossing rule, band touches, counters, SAR flip) + exact differential replay of every signal against the rule applied to the implementation's own values",
    text="The model's signal functions take the returned values as input; the run applies them to the exact rationals of the floats the real code "
         "returned, rounding code-formed thresholds (1 - zone) and candle sources as the code does, so every crossing / touch / zone / flip decision "
-        "of the 16 modelled indicators is compared exactly at every step; proportional strengths must hit the quantiser level of the exact argument. "
+        "of the 34 modelled indicators is compared exactly at every step; proportional strengths must hit the quantiser level of the exact argument. "
         "Theorems: MACD signals are the C14 crossing rule on (macd, signal) and (macd, 0); Donchian / PriceChannel / Envelopes rules as case "
         "distinctions; Aroon counters count consecutive in-zone steps and reset; SAR signal fires iff the returned trend changed, in its direction, "
         "for every reachable state.",
-   note=COMMON_NOTE + "PARTIAL: per-indicator rule theorems for RSI/MFI/Stochastic/Keltner/Ichimoku/CMF/CMO/TSI/SMI are not written (they are "
-        "compositions of C14 detectors and C16 subtraction; validated by the run); 20 indicators have no model. Steps after a non-finite value "
+   note=COMMON_NOTE + "Rule theorems also for RSI, MFI, CMF, CMO, Keltner, Stochastic (compositions of C14 detectors and C16 subtraction). PARTIAL: the second-tier "
+        "indicators, Ichimoku, TSI/SMI, Bollinger rules are validated by the run only; 2 indicators have no model. Steps after a non-finite value "
         "and SAR cases after a flip decision within 64 ulp are exempt and counted.",
    ref="DESIGN.md §5 C06"),
  "C12": dict(cat="proof", tech="Lean 4 range / ordering proofs on the exact models (quotients of non-negative sums, channel containment, SAR side invariant) + strict range test on the implementation's own values at every step",
@@ -194,7 +192,7 @@ CLAIMS = {
         "indicators incl. non-finite values, volatile->flat->volatile and zero-volume streams; dispersion methods >= 0; CLV/TR on valid candles.",
    note=COMMON_NOTE + NUM_NOTE + "PARTIAL: floats are outside the theorems - exactly where this property bites: known findings MoneyFlowIndex, "
         "ChandeMomentumOscillator, RelativeStrengthIndex leave their ranges (even +-inf) through rounding residue behind exact == 0 guards. "
-        "LinearVolatility/MeanAbsDev non-negativity, Keltner/Envelopes ordering, CMF and TSI ranges are run-only.",
+        "Theorems also for LinearVolatility / MeanAbsDev >= 0, Keltner and Envelopes ordering, the CMF range (|sum CLV*vol| <= sum vol over the same window) and the TSI range (domination of the double smoothing); smoothed Stochastic / SMI signal-line ranges are run-only.",
    ref="DESIGN.md §5 C12"),
  "C07": dict(cat="proof", tech="Lean 4 proofs of window locality and exponential forgetting (reduction of every history length to a bounded suffix) + late-position differential run on long streams",
    text="Theorems: after n inputs the window - hence every sliding-window spec - equals that of a fresh instance fed the last inputs "
